@@ -121,7 +121,7 @@ def run(ctx):
         "on the unsynchronised flags are not modelled",
         "vplatform replaces platform.c: pthread mutex/condvar/event semantics are modelled, not exercised",
         "the shipped devices are replaced by a mock driver here (they are covered by C14-C18)",
-        "model scope G1: frame averaging off, stream i uses device pair i, configure/start issued between acquisitions; logs outside "
+        "model scope G1: frame averaging off, the two streams never use the same device at once, configure/start issued between acquisitions; logs outside "
         "G1 are checked by the independent oracle only (counted under model-scope-skip)"]
     ctx.trusted = vlib.default_trusted() + [
         "harness/vplatform (deterministic scheduler), fam/pipe/harness/h_pipe.c + mockdrv.c, the log->event translator pipelib.to_events",
